@@ -161,9 +161,10 @@ def scan(prog):
 
 def obligations(prog):
     from core import armed_group_obligations
-    groups = load_table("cap_sites.json")["groups"]
+    tab = load_table("cap_sites.json")
+    groups = tab["groups"]
     sites = scan(prog)
-    obs = armed_group_obligations("R-CAP", sites, groups)
+    obs = armed_group_obligations("R-CAP", sites, groups, unproved=tab.get("unproved"))
     unproved = [s for s in sites if s["proved"] is not True]
     st = {"sites_scanned": len(sites), "armed_groups": len(groups), "armed_sites": sum(groups.values()),
           "sites_proved_now": len(sites) - len(unproved),
@@ -246,11 +247,12 @@ def _mentions(e, key):
 def wrap_obligations(prog):
     """Armed instances (tables/wrap_sites.json = the candidates that hold on the reviewed tree) of _wrap_scan."""
     from core import armed_group_obligations
-    groups = load_table("wrap_sites.json")["groups"]
+    tab = load_table("wrap_sites.json")
+    groups = tab["groups"]
     allobs = _wrap_scan(prog)
     sites = [{"idbase": o.oid.rsplit("#", 1)[0], "fn": o.fn, "loc": o.loc, "text": o.text, "proved": bool(o.ok), "detail": o.detail, "props": o.props}
              for o in allobs]
-    obs = armed_group_obligations("R-WRAP", sites, groups)
+    obs = armed_group_obligations("R-WRAP", sites, groups, unproved=tab.get("unproved"))
     return obs, {"candidates": len(allobs), "armed_groups": len(groups),
                  "not_provable": [o.oid + ": " + o.detail for o in allobs if not o.ok]}
 
@@ -357,22 +359,26 @@ if __name__ == "__main__":
     prog = program("K0")
     if len(sys.argv) > 1 and sys.argv[1] == "regen":
         sites = scan(prog)
-        groups = {}
+        groups, unp = {}, {}
         for s in sites:
             if s["proved"] is True:
                 groups[s["idbase"]] = groups.get(s["idbase"], 0) + 1
-        json.dump({"_comment": "R-CAP: per (function, kind, object) the number of sites proved by interval analysis on the reviewed tree "
-                               "(python3 rules/r_cap.py regen). A group with fewer proved sites is a violation.",
-                   "groups": dict(sorted(groups.items()))}, open(os.path.join(VERIF, "tables", "cap_sites.json"), "w"), indent=0)
+            else:
+                unp[s["idbase"]] = unp.get(s["idbase"], 0) + 1
+        json.dump({"_comment": "R-CAP: per (function, kind, object) the number of sites proved / not proved by interval analysis on the reviewed tree "
+                               "(python3 rules/r_cap.py regen). A group with fewer proved and more unproved sites is a violation.",
+                   "groups": dict(sorted(groups.items())), "unproved": {k: v for k, v in sorted(unp.items()) if k in groups}}, open(os.path.join(VERIF, "tables", "cap_sites.json"), "w"), indent=0)
         print("armed", sum(groups.values()), "sites in", len(groups), "groups, of", len(sites), "sites")
         w = _wrap_scan(prog)
-        wg = {}
+        wg, wu = {}, {}
         for o in w:
+            b = o.oid.rsplit("#", 1)[0]
             if o.ok:
-                b = o.oid.rsplit("#", 1)[0]
                 wg[b] = wg.get(b, 0) + 1
-        json.dump({"_comment": "R-WRAP: per (function, statement) the number of instances that hold on the reviewed tree (python3 rules/r_cap.py regen).",
-                   "groups": dict(sorted(wg.items()))}, open(os.path.join(VERIF, "tables", "wrap_sites.json"), "w"), indent=0)
+            else:
+                wu[b] = wu.get(b, 0) + 1
+        json.dump({"_comment": "R-WRAP: per (function, statement) the number of instances that hold / do not hold on the reviewed tree (python3 rules/r_cap.py regen).",
+                   "groups": dict(sorted(wg.items())), "unproved": {k: v for k, v in sorted(wu.items()) if k in wg}}, open(os.path.join(VERIF, "tables", "wrap_sites.json"), "w"), indent=0)
         for o in w:
             print("WRAP", "armed" if o.ok else "not-armed", o.oid, o.detail)
         return_ = None
